@@ -178,7 +178,7 @@ fn run_case(o: &Opts, case_seed: u64, case_index: u64) -> CaseReport {
         return crate::camp_fault::fault_case(o, case_seed);
     }
     match o.prop.as_str() {
-        "C01" | "C02" | "C04" | "C05" | "C06" | "C07" | "C09" | "C10" | "C11" | "C03" => {
+        "C01" | "C02" | "C04" | "C05" | "C06" | "C07" | "C08" | "C09" | "C10" | "C11" | "C03" => {
             crate::camp_single::acyclic_case(o, case_seed)
         }
         "C12" | "C13" | "C14" | "C15" => crate::camp_single::cyclic_case(o, case_seed),
